@@ -786,6 +786,18 @@ fn c02_area(t: &[&str]) -> Option<String> {
     match &shape {
         AnyShape::Line(l) => {
             let v = verts(l);
+            // the shoelace value is the area of the shape only if the segments form ONE closed outline:
+            // for the shapes the constructors build from radii, each segment must end where the next begins
+            if matches!(t.get(0), Some(&"radial") | Some(&"poly")) {
+                let n = l.items.len();
+                for i in 0..n {
+                    let (e, s2) = (l.items[i].end, l.items[(i + 1) % n].start);
+                    let scale = 1.0 + e.x.abs().max(e.y.abs());
+                    if !((e.x - s2.x).abs() <= 1e-9 * scale && (e.y - s2.y).abs() <= 1e-9 * scale) {
+                        return Some(format!("ok FAILS the outline built from the radii is not closed: segment {} ends at ({:e}, {:e}) but segment {} starts at ({:e}, {:e})", i, e.x, e.y, (i + 1) % n, s2.x, s2.y));
+                    }
+                }
+            }
             let want = geom::shoelace(&v).abs();
             let got = l.area();
             if !(got.is_finite()) || (got - want).abs() > 1e-9 * (1.0 + want) {
